@@ -33,6 +33,11 @@ def run(ck, replay=None):
     ck.sany("MC_Grid", "Trace_Grid")
     cfg = f"MC_Grid_{ck.tier}.cfg"
     r = ck.model_check("MC_Grid", cfg, workers=8, big=(ck.tier == "thorough"))
+    if ck.tier == "thorough":
+        # numbering lemma for ALL 3-D shapes with extents up to 100000 (Apalache, integer SMT), with its vacuity guards
+        if ck.apalache("MC_GridLemma", "Lemma"):
+            ck.apalache("MC_GridLemma", "WrongStride", expect_error=True)
+            ck.apalache("MC_GridLemma", "WrongInjective", expect_error=True)
     shapes = [tuple(p[1]) for p in r.printed("SCN")]
     if replay:
         shapes = [tuple(c["shape"]) for c in json.load(open(replay))["cases"]]
